@@ -1,5 +1,216 @@
 import Driver.Proto
+import TonicModel.Model.WebClient
+import TonicModel.Spec.GrpcWeb
 namespace DriverC17
-/-- stub: property not yet claimed -/
-def handle (_case _obs : List String) : String × String := ("unclaimed", "fail:unclaimed")
+open Proto WebServer WebClient
+open TMap (Pair str)
+
+/-! token helpers (same text form as C16's driver; kept local so that this module imports only
+`Driver.Proto` and the model/spec) -/
+
+def parsePairs : Nat → List String → Option (List Pair × List String)
+  | 0, r => some ([], r)
+  | n + 1, k :: v :: r => do
+    let kb ← unhex k
+    let vb ← unhex v
+    let (ps, r') ← parsePairs n r
+    some ((kb, vb) :: ps, r')
+  | _ + 1, _ => none
+
+def parseEvsAux : Nat → List String → Option (List BodyEv)
+  | _, [] => some []
+  | 0, _ => none
+  | f + 1, "d" :: h :: r => do
+    let b ← unhex h
+    let es ← parseEvsAux f r
+    some (.data b :: es)
+  | f + 1, "e" :: r => (parseEvsAux f r).map (.err :: ·)
+  | f + 1, "p" :: r => (parseEvsAux f r).map (.pending :: ·)
+  | f + 1, "t" :: n :: r => do
+    let n ← nat? n
+    let (ps, r') ← parsePairs n r
+    let es ← parseEvsAux f r'
+    some (.trailers ps :: es)
+  | _ + 1, _ => none
+
+def parseEvs (ts : List String) : Option (List BodyEv) := parseEvsAux (ts.length + 1) ts
+
+def renderPairs (ps : List Pair) : List String :=
+  ps.flatMap (fun p => [hex p.1, hex p.2])
+
+def renderOuts : List Out → List String
+  | [] => []
+  | .data b :: r => "d" :: hex b :: renderOuts r
+  | .trailers h :: r => "t" :: toString h.length :: (renderPairs h ++ renderOuts r)
+  | .err :: r => "err" :: renderOuts r
+  | .eos :: r => "eos" :: renderOuts r
+
+/-- observed frame tokens back into `Out`s -/
+def parseOutsAux : Nat → List String → Option (List Out)
+  | _, [] => some []
+  | 0, _ => none
+  | f + 1, "d" :: h :: r => do
+    let b ← unhex h
+    let os ← parseOutsAux f r
+    some (.data b :: os)
+  | f + 1, "err" :: r => (parseOutsAux f r).map (.err :: ·)
+  | f + 1, "eos" :: r => (parseOutsAux f r).map (.eos :: ·)
+  | f + 1, "t" :: n :: r => do
+    let n ← nat? n
+    let (ps, r') ← parsePairs n r
+    let os ← parseOutsAux f r'
+    some (.trailers ps :: os)
+  | _ + 1, _ => none
+
+def parseOuts (ts : List String) : Option (List Out) := parseOutsAux (ts.length + 1) ts
+
+def join (ts : List String) : String := String.intercalate " " ts
+
+def onlyData : List Out → Bool
+  | [] => true
+  | .data _ :: r => onlyData r
+  | _ => false
+
+/-- all `Out`s are data except a final `eos` -/
+def dataThenEos (o : List Out) : Bool :=
+  o.getLast? == some .eos && onlyData o.dropLast
+
+def isData : BodyEv → Bool
+  | .data _ => true
+  | _ => false
+
+def firstFail (vs : List String) : String :=
+  match vs.find? (· != "ok") with
+  | some v => v
+  | none => "ok"
+
+
+def bytesLe : Bytes → Bytes → Bool
+  | [], _ => true
+  | _ :: _, [] => false
+  | a :: as, b :: bs => if a.toNat < b.toNat then true else if b.toNat < a.toNat then false else bytesLe as bs
+
+/-- put `p` before the first entry whose name is not smaller (stable w.r.t. equal names when
+folding from the right) -/
+def insertByName (p : Pair) : List Pair → List Pair
+  | [] => [p]
+  | q :: r => if bytesLe p.1 q.1 then p :: q :: r else q :: insertByName p r
+
+def sortByName (l : List Pair) : List Pair := l.foldr insertByName []
+
+/-- canonical form of trailers frames: sorted by name, value order kept -/
+def canonOuts : List Out → List Out
+  | [] => []
+  | .trailers t :: r => .trailers (sortByName t) :: canonOuts r
+  | o :: r => o :: canonOuts r
+
+def trailersOf : List Out → List Pair
+  | [] => []
+  | .trailers t :: r => t ++ trailersOf r
+  | _ :: r => trailersOf r
+
+def countTrailers : List Out → Nat
+  | [] => 0
+  | .trailers _ :: r => countTrailers r + 1
+  | _ :: r => countTrailers r
+
+/-- spec verdict for the client: `evs` = inner response body, `obs` = frames the caller saw,
+`busy` = the run did not end, `ae` = polls of the inner body after its end. -/
+def clientVerdict (evs : List BodyEv) (obs : List Out) (busy : Bool) (ae : Nat) : String :=
+  let es := evs.filter notPending
+  let live := verdict [("no-busy-loop", !busy && ae ≤ 8)]
+  let body := flat es
+  let v :=
+    match es.find? (fun e => !isData e) with
+    | some .err => verdict [("error-not-clean", obs.getLast? == some .err)]
+    | some _ => "ok"      -- real HTTP trailers next to in-body ones: outside the property
+    | none =>
+      match Spec.GrpcWeb.frameStructure body with
+      | none => verdict [("cut-off-or-malformed-is-error", obs.getLast? == some .err)]
+      | some items =>
+        let msgs := items.filter (fun i => i.1 != 128)
+        let trs := items.filter (fun i => i.1 == 128)
+        let trailersLast := (items.dropWhile (fun i => i.1 != 128)).length ≤ 1
+        if trs.length ≤ 1 && trailersLast then
+          let msgBytes := msgs.flatMap (fun i => Spec.GrpcWeb.rawFrame i.1 i.2)
+          match trs with
+          | [] =>
+            verdict [("clean-end", obs.getLast? == some .eos),
+                     ("message-bytes-identical", dataOf obs == msgBytes),
+                     ("no-trailers-invented", trailersOf obs == [])]
+          | (_, block) :: _ =>
+            match Spec.GrpcWeb.parseBlock block with
+            | some ps =>
+              if ps.all (fun p => Spec.GrpcWeb.fieldNameOk p.1 && Spec.GrpcWeb.fieldValueOk p.2) then
+                verdict [("clean-end", obs.getLast? == some .eos),
+                         ("message-bytes-identical", dataOf obs == msgBytes),
+                         ("trailers-after-data", match obs.dropLast.getLast? with
+                            | some (.trailers _) => true
+                            | _ => false),
+                         ("one-trailers-frame", countTrailers obs == 1),
+                         ("every-trailer-complete",
+                            Spec.GrpcWeb.sameTrailers (Spec.GrpcWeb.normPairs (trailersOf obs)) (Spec.GrpcWeb.normPairs ps)
+                            && (trailersOf obs).length == ps.length)]
+              else "ok"    -- trailer block with bytes no HTTP field may carry: error or lenient
+            | none => "ok" -- unterminated line / line without colon: error or lenient
+        else "ok"          -- frames after the trailers frame / several trailers frames
+  firstFail [live, v]
+
+def handle (case obs : List String) : String × String :=
+  match case with
+  | "cl" :: evToks =>
+    match parseEvs evToks with
+    | some evs =>
+      let model := join (renderOuts (canonOuts (Fixed.observe evs)) ++ ["ae", "0"])
+      let v := match splitAe obs with
+        | some (frames, ae) =>
+          let busy := frames.getLast? == some "busy" || frames.getLast? == some "hang" || frames.getLast? == some "panic"
+          match parseOuts (if busy then frames.dropLast else frames) with
+          | some o => clientVerdict evs o busy ae
+          | none => "fail:unreadable-observation"
+        | none => "fail:unreadable-observation"
+      (model, v)
+    | none => bad
+  | "asis" :: evToks =>
+    match parseEvs evToks with
+    | some evs =>
+      let (os, busy, ae) := AsIs.observe 1000 evs
+      let model := join (renderOuts (canonOuts os) ++ (if busy then ["busy"] else []) ++ ["ae", toString ae])
+      let v := match splitAe obs with
+        | some (frames, ae) =>
+          let busy := frames.getLast? == some "busy" || frames.getLast? == some "hang" || frames.getLast? == some "panic"
+          match parseOuts (if busy then frames.dropLast else frames) with
+          | some o => clientVerdict evs o busy ae
+          | none => "fail:unreadable-observation"
+        | none => "fail:unreadable-observation"
+      (model, v)
+    | none => bad
+  | "creq" :: evToks =>
+    match parseEvs evToks with
+    | some evs =>
+      -- `client_request`: Encode direction, no base64; HTTP/2 is coerced to HTTP/1.1 and the
+      -- content type replaced
+      let model := join (["HTTP11", hex GRPC_WEB] ++ renderOuts (respRun .none evs))
+      let v := match obs with
+        | ver :: ct :: frames =>
+          match parseOuts frames with
+          | some o =>
+            let es := evs.filter notPending
+            firstFail [verdict [("http-1.1", ver == "HTTP11"),
+                                ("grpc-web-content-type", ct == hex (str "application/grpc-web"))],
+                       (match es.find? (fun e => !isData e) with
+                        | none => verdict [("request-bytes-identical", dataThenEos o && dataOf o == flat es)]
+                        | some .err => verdict [("error-not-clean", o.getLast? == some .err)]
+                        | some _ => "ok")]
+          | none => "fail:unreadable-observation"
+        | _ => "fail:unreadable-observation"
+      (model, v)
+    | none => bad
+  | _ => bad
+where
+  splitAe (obs : List String) : Option (List String × Nat) :=
+    match obs.reverse with
+    | n :: "ae" :: r => (nat? n).map (fun k => (r.reverse, k))
+    | _ => none
+
 end DriverC17
